@@ -29,9 +29,10 @@ fn raw_ctrls(v: &Value) -> Option<Vec<RawControl>> {
 /// Poll a future a few times without a driver behind the handle: everything before the first
 /// wait for the reply runs; then the queued operation is inspected.
 fn request(case: &Value) -> Value {
-    let first_id = case["first_id"].as_i64().unwrap() as i32;
-    let last = if first_id == 1 { 0 } else { first_id - 1 };
-    let (mut ldap, mut q) = vh::ldap_with_queue(last, HashSet::new());
+    let first_id = case["first_id"].as_i64().unwrap_or(1) as i32;
+    let last = match case["last"].as_i64() { Some(l) => l as i32, None => if first_id == 1 { 0 } else { first_id - 1 } };
+    let inuse: HashSet<i32> = case["inuse"].as_array().map(|a| a.iter().filter_map(|x| x.as_i64()).map(|x| x as i32).collect()).unwrap_or_default();
+    let (mut ldap, mut q) = vh::ldap_with_queue(last, inuse);
     let op = case["op"].as_str().unwrap().to_string();
     if let Some(o) = case.get("opts").filter(|o| !o.is_null()) {
         let d = [DerefAliases::Never, DerefAliases::Searching, DerefAliases::Finding, DerefAliases::Always][o["deref"].as_u64().unwrap() as usize];
@@ -97,7 +98,9 @@ fn request(case: &Value) -> Value {
             let id = qo.id;
             let st = qo.tag.clone().into_structure();
             vh::encode(id, qo.tag, qo.controls.clone(), &mut buf).unwrap();
-            json!({"r": "queued", "id": id, "ldapop": qo.kind, "abandon_id": qo.abandon_id, "wire": buf.to_vec(), "op": tree_json(&st),
+            let (ctr, mut reserved) = vh::msgmap_snapshot(&ldap);
+            reserved.sort();
+            json!({"r": "queued", "id": id, "counter": ctr, "reserved": reserved, "ldapop": qo.kind, "abandon_id": qo.abandon_id, "wire": buf.to_vec(), "op": tree_json(&st),
                    "controls": qo.controls.map(|cs| cs.iter().map(|c| json!({"oid": c.ctype.as_bytes(), "crit": c.crit, "val": c.val})).collect::<Vec<_>>()),
                    "opts_consumed": true})
         }
